@@ -221,6 +221,9 @@ func (r *Runner) builtin(ctx context.Context, pos syntax.Pos, name string, args 
 		}
 
 		for _, arg := range args {
+			if arg == "" {
+				continue // like bash, an empty name is silently ignored
+			}
 			if name, sub, ok := cutElemSubscript(arg); vars && ok {
 				r.unsetElem(name, sub)
 			} else if vars && r.lookupVar(arg).IsSet() {
